@@ -50,11 +50,32 @@ package transaction
 //@   trusted
 //@   modifies nothing
 
-//@ # ASSUMED for now (proved separately where listed under C27/C15): pure computations over the read-only state
+//@ # C15: the slippage gate of every pool hop. The pool's quote is abstract (swap.buyQuote / swap.sellQuote: what the
+//@ # pool's calculators return in this state); proved: a hop is accepted only when the quote respects the user's limit
+//@ # (at least valueOut and at least 1 unit when selling, at most valueIn when buying), the value handed on IS the quote,
+//@ # and a quote outside the limit is rejected with the limit's own error code.
+//@ axiom pairIDsymT: forall a types.CoinID, b types.CoinID :: pairID(a, b) == pairID(b, a)
+//@ ghost feeOn() bool
+//@ ghost feeGas() types.CoinID
+//@ ghost feeAmt() int
+//@ ghost feeSwapper() swap.EditableChecker
 //@ func CheckSwap
-//@   trusted
-//@   ensures resp != nil ==> resp.Code != 0
+//@   serves C15
+//@   requires rSwap != nil && coinIn != nil && coinOut != nil && valueIn != nil && valueOut != nil
+//@   # C15: DeliverTx converts the fee before it swaps. A hop that goes through the pool the fee is converted in is therefore
+//@   # gated on that pool AS IT WILL BE after the fee conversion (in whichever direction the hop uses it), never on the
+//@   # untouched pool
+//@   requires [C15] feefirst: feeOn() && feeGas() != 0 && coinIDOf(coinIn) == feeGas() && coinIDOf(coinOut) == 0 ==> viewOf(rSwap) == after(poolView(feeGas(), 0), feeAmt(), buyQuote(feeSwapper(), feeAmt()), true)
+//@   requires [C15] feefirstback: feeOn() && feeGas() != 0 && coinIDOf(coinOut) == feeGas() && coinIDOf(coinIn) == 0 ==> viewOf(rSwap) == mirror(after(mirror(poolView(0, feeGas())), feeAmt(), buyQuote(feeSwapper(), feeAmt()), false))
+//@   ensures resp != nil ==> resp.Code != 0 && res == nil
 //@   ensures res != nil ==> fresh(res)
+//@   ensures [C15] maxsell: isBuy && resp == nil ==> res != nil && sellQuoteOK(rSwap, valueOut.val) && res.val == sellQuote(rSwap, valueOut.val) && res.val <= valueIn.val
+//@   ensures [C15] minbuy: !isBuy && resp == nil ==> res != nil && buyQuoteOK(rSwap, valueIn.val) && res.val == buyQuote(rSwap, valueIn.val) && res.val >= valueOut.val && (valueOut.val == 0 ==> res.val >= 1)
+//@   ensures [C15] overmax: isBuy && sellQuoteOK(rSwap, valueOut.val) && sellQuote(rSwap, valueOut.val) > valueIn.val ==> resp != nil && resp.Code == code.MaximumValueToSellReached
+//@   ensures [C15] undermin: !isBuy && buyQuoteOK(rSwap, valueIn.val) && buyQuote(rSwap, valueIn.val) < valueOut.val ==> resp != nil && resp.Code == code.MinimumValueToBuyReached
+//@   ensures [C15] noliquidity: (isBuy && !sellQuoteOK(rSwap, valueOut.val)) || (!isBuy && !buyQuoteOK(rSwap, valueIn.val)) ==> resp != nil && resp.Code == code.InsufficientLiquidity
+//@   ensures [C15] accepted: isBuy && sellQuoteOK(rSwap, valueOut.val) && sellQuote(rSwap, valueOut.val) <= valueIn.val ==> resp == nil
+//@   ensures [C15] acceptedsell: !isBuy && buyQuoteOK(rSwap, valueIn.val) && buyQuote(rSwap, valueIn.val) >= valueOut.val && buyQuote(rSwap, valueIn.val) >= 1 ==> resp == nil
 //@   modifies nothing
 //@ # C27: a commission paid in a custom coin uses the cheaper of the pool route and the bancor-reserve route.
 //@ # The two quotes are abstract (what the quoting helpers return in this state); the choice between them is proved.
@@ -97,7 +118,10 @@ package transaction
 //@   ensures onlypool: custom && pok && !rok ==> errResp == nil && commission.val == pq && poolSwap
 //@   ensures onlyreserve: custom && !pok && rok ==> errResp == nil && commission.val == rq && !poolSwap
 //@   ensures neither: custom && !pok && !rok ==> errResp != nil
-//@   modifies coinsCache
+//@   ensures poolpositive: errResp == nil && poolSwap ==> commission.val > 0
+//@   # history ghosts (C15): the fee parameters of the transaction being run, as decided here
+//@   ensures [assumed] recorded: errResp == nil ==> feeOn() == poolSwap && feeGas() == coinIDOf(gasCoin) && feeAmt() == commission.val && feeSwapper() == swapper && (poolSwap ==> buyQuoteOK(swapper, commission.val))
+//@   modifies coinsCache, feeOn, feeGas, feeAmt, feeSwapper
 //@ func CalculateSaleReturnAndCheck
 //@   trusted
 //@   ensures result1 != nil ==> result1.Code != 0
@@ -157,7 +181,7 @@ package transaction
 //@   # C05: only the sender's own balances can go down (a check redemption also debits the check's issuer)
 //@   ensures [C05] onlysender: arg0.Type != TypeRedeemCheck ==> forall c types.CoinID, a types.Address :: a != senderOf(arg0) ==> bal(accs, c, a) >= old(bal(accs, c, a))
 //@   ensures [C03] rejectedchecks: result.Code != 0 || !deliver ==> forall h types.Hash :: (h in st.Checks.usedChecks) <==> old(h in st.Checks.usedChecks)
-//@   modifies bal, nonce, ledgerDelta, ledgerVolume, coinVolume, coinReserve, swapAbs, otherState, arg2.val, accountsCache, coinsCache, commissionCache, mapof(st.Checks.usedChecks), ffModel, ffCache, ffDirtyMarks, frozenfunds.Model.List, stakeObj, candidates.stake.Value, candCache, candDirtyMarks, wlItem, wlCache, candidates.Candidate.Status, candidates.Candidate.isDirty, coinExists, symTaken, coinMaxOf, coinModel, symInfoOf, app.Model.CoinsCount, app.App.model, appDirtyMarks
+//@   modifies feeOn, feeGas, feeAmt, feeSwapper, bal, nonce, ledgerDelta, ledgerVolume, coinVolume, coinReserve, swapAbs, otherState, arg2.val, accountsCache, coinsCache, commissionCache, mapof(st.Checks.usedChecks), ffModel, ffCache, ffDirtyMarks, frozenfunds.Model.List, stakeObj, candidates.stake.Value, candCache, candDirtyMarks, wlItem, wlCache, candidates.Candidate.Status, candidates.Candidate.isDirty, coinExists, symTaken, coinMaxOf, coinModel, symInfoOf, app.Model.CoinsCount, app.App.model, appDirtyMarks
 
 //@ func (*ExecutorV3).RunTx
 //@   serves C04 C03 C26 C27 C05
@@ -861,3 +885,97 @@ package transaction
 //@   loop 0 invariant small: forall i int :: 0 <= i && i <= rangeindex ==> data.Weights[i] <= 1023
 //@   loop 1 invariant idx: -1 <= rangeindex && rangeindex < len(data.Addresses)
 //@   loop 1 invariant small: forall i int :: 0 <= i && i < len(data.Weights) ==> data.Weights[i] <= 1023
+
+//@ # ---------------------------------------------------------------- C15: swap-pool routes gate every hop on the post-fee pool
+//@ func (SellSwapPoolDataV260).basicCheck
+//@   serves C15
+//@   requires context != nil && context.state != nil && (context.state.SwapV2 != nil || context.state.Swap != nil)
+//@   ensures result != nil ==> result.Code != 0
+//@   ensures route: result == nil ==> 2 <= len(data.Coins) && len(data.Coins) <= 5
+//@   modifies nothing
+//@   loop 0 invariant idx: -1 <= rangeindex && rangeindex < len(data.Coins) - 1
+//@ func (SellSwapPoolDataV260).Run
+//@   serves C15
+//@   let st = typeis(context, "*state.CheckState") ? as(context, "*state.CheckState").state : as(context, "*state.State")
+//@   requires tx != nil && rewardPool != nil && price != nil && senderKnown(tx)
+//@   requires ctx: typeis(context, "*state.CheckState") || typeis(context, "*state.State")
+//@   requires ctxcheck: typeis(context, "*state.CheckState") ==> as(context, "*state.CheckState") != nil
+//@   requires modules: st != nil && st.Accounts != nil && st.Coins != nil && st.Commission != nil && (st.SwapV2 != nil || st.Swap != nil)
+//@   requires data.ValueToSell != nil && data.MinimumValueToBuy != nil && price.val >= 0
+//@   requires gascoin: tx.GasCoin == 0 || coinExists(st.Coins, tx.GasCoin)
+//@   assumespre (*Accounts).AddBalance: the delivery half of Run is outside this contract (only the gating of the route is proved here)
+//@   assumespre (*Accounts).SubBalance: the delivery half of Run is outside this contract
+//@   assumespre (*Coins).SubReserve: the delivery half of Run is outside this contract
+//@   assumespre (*Coins).SubVolume: the delivery half of Run is outside this contract
+//@   assumespre iface _.PairSellWithOrders: the delivery half of Run is outside this contract
+//@   assumes poolcoins: forall k int :: 0 <= k && k < len(data.Coins) ==> data.Coins[k] == 0 || coinExists(st.Coins, data.Coins[k])
+//@   loop 0 invariant v1: valueToSell != nil && valueToBuy != nil
+//@   loop 0 invariant v2: coinToSellModel != nil && coinIDOf(coinToSellModel) == coinToSell
+//@   loop 0 invariant v3: commission != nil && commission.val >= 0
+//@   loop 0 invariant v4: commissionInBaseCoin != nil
+//@   loop 0 invariant idx: -1 <= rangeindex && rangeindex < len(data.Coins) - 1
+//@ func (BuySwapPoolDataV260).basicCheck
+//@   serves C15
+//@   requires context != nil && context.state != nil && (context.state.SwapV2 != nil || context.state.Swap != nil)
+//@   ensures result != nil ==> result.Code != 0
+//@   ensures route: result == nil ==> 2 <= len(data.Coins) && len(data.Coins) <= 5
+//@   modifies nothing
+//@   loop 0 invariant idx: -1 <= rangeindex && rangeindex < len(data.Coins) - 1
+//@ func (BuySwapPoolDataV260).Run
+//@   serves C15
+//@   let st = typeis(context, "*state.CheckState") ? as(context, "*state.CheckState").state : as(context, "*state.State")
+//@   requires tx != nil && rewardPool != nil && price != nil && senderKnown(tx)
+//@   requires ctx: typeis(context, "*state.CheckState") || typeis(context, "*state.State")
+//@   requires ctxcheck: typeis(context, "*state.CheckState") ==> as(context, "*state.CheckState") != nil
+//@   requires modules: st != nil && st.Accounts != nil && st.Coins != nil && st.Commission != nil && (st.SwapV2 != nil || st.Swap != nil)
+//@   requires data.ValueToBuy != nil && data.MaximumValueToSell != nil && price.val >= 0
+//@   requires gascoin: tx.GasCoin == 0 || coinExists(st.Coins, tx.GasCoin)
+//@   assumes poolcoins: forall k int :: 0 <= k && k < len(data.Coins) ==> data.Coins[k] == 0 || coinExists(st.Coins, data.Coins[k])
+//@   assumespre (*Accounts).AddBalance: the delivery half of Run is outside this contract (only the gating of the route is proved here)
+//@   assumespre (*Accounts).SubBalance: the delivery half of Run is outside this contract
+//@   assumespre (*Coins).SubReserve: the delivery half of Run is outside this contract
+//@   assumespre (*Coins).SubVolume: the delivery half of Run is outside this contract
+//@   assumespre iface _.PairSellWithOrders: the delivery half of Run is outside this contract
+//@   assumespre iface _.PairBuyWithOrders: the delivery half of Run is outside this contract
+//@   loop 0 invariant v1: valueToSell != nil && valueToBuy != nil
+//@   loop 0 invariant v2: coinToBuyModel != nil && coinIDOf(coinToBuyModel) == coinToBuy
+//@   loop 0 invariant v3: commission != nil && commission.val >= 0
+//@   loop 0 invariant v4: commissionInBaseCoin != nil
+//@   loop 0 invariant idx: -1 <= rangeindex && rangeindex < len(data.Coins) - 1
+//@ func (SellAllSwapPoolDataV260).basicCheck
+//@   serves C15
+//@   requires context != nil && context.state != nil && (context.state.SwapV2 != nil || context.state.Swap != nil)
+//@   ensures result != nil ==> result.Code != 0
+//@   ensures route: result == nil ==> 2 <= len(data.Coins) && len(data.Coins) <= 5
+//@   modifies nothing
+//@   loop 0 invariant idx: -1 <= rangeindex && rangeindex < len(data.Coins) - 1
+//@ func (SellAllSwapPoolDataV260).Run
+//@   serves C15
+//@   let st = typeis(context, "*state.CheckState") ? as(context, "*state.CheckState").state : as(context, "*state.State")
+//@   requires tx != nil && rewardPool != nil && price != nil && senderKnown(tx)
+//@   requires ctx: typeis(context, "*state.CheckState") || typeis(context, "*state.State")
+//@   requires ctxcheck: typeis(context, "*state.CheckState") ==> as(context, "*state.CheckState") != nil
+//@   requires modules: st != nil && st.Accounts != nil && st.Coins != nil && st.Commission != nil && (st.SwapV2 != nil || st.Swap != nil)
+//@   requires data.MinimumValueToBuy != nil && price.val >= 0
+//@   requires gascoin: len(data.Coins) > 0 ==> data.Coins[0] == 0 || coinExists(st.Coins, data.Coins[0])
+//@   assumes typed: tx.Type == TypeSellAllSwapPool && (len(data.Coins) > 0 ==> dataCoin(tx.decodedData) == data.Coins[0])
+//@   assumes poolcoins: forall k int :: 0 <= k && k < len(data.Coins) ==> data.Coins[k] == 0 || coinExists(st.Coins, data.Coins[k])
+//@   assumespre (*Accounts).AddBalance: the delivery half of Run is outside this contract (only the gating of the route is proved here)
+//@   assumespre (*Accounts).SubBalance: the delivery half of Run is outside this contract
+//@   assumespre (*Coins).SubReserve: the delivery half of Run is outside this contract
+//@   assumespre (*Coins).SubVolume: the delivery half of Run is outside this contract
+//@   assumespre iface _.PairSellWithOrders: the delivery half of Run is outside this contract
+//@   assumespre iface _.PairBuyWithOrders: the delivery half of Run is outside this contract
+//@   loop 0 invariant v1: valueToSell != nil && valueToBuy != nil
+//@   loop 0 invariant v2: coinToSellModel != nil && coinIDOf(coinToSellModel) == coinToSell
+//@   loop 0 invariant v3: commission != nil && commission.val >= 0
+//@   loop 0 invariant v4: commissionInBaseCoin != nil
+//@   loop 0 invariant idx: -1 <= rangeindex && rangeindex < len(data.Coins) - 1
+//@ # reversal in place of a route (the buy route is checked and executed from its far end)
+//@ func reverseCoinIds
+//@   serves C15
+//@   ensures forall k int :: 0 <= k && k < len(a) ==> a[k] == old(a[len(a) - 1 - k])
+//@   modifies elems(a)
+//@   loop 0 invariant idx: -1 <= i && i <= len(a) / 2 - 1
+//@   loop 0 invariant done: forall k int :: 0 <= k && k < len(a) ==> a[k] == ((i < k && k < len(a) - 1 - i) ? old(a[len(a) - 1 - k]) : old(a[k]))
+//@   loop 0 invariant only: allelems(a) == store(old(allelems(a)), arrref(a), select(allelems(a), arrref(a)))
